@@ -13,9 +13,18 @@ class Interactive:
         import subprocess
         self.p = subprocess.Popen([exe or vlib.UH, mode, "--interactive"], stdin=subprocess.PIPE, stdout=subprocess.PIPE,
                                   env=vlib.ENV, text=True, bufsize=1)
-    def op(self, line):
+    def op(self, line, timeout=60):
+        import select
         self.p.stdin.write(line + "\n"); self.p.stdin.flush()
-        return self.p.stdout.readline().rstrip("\n")
+        # a hang of the implementation must not hang the generator
+        r, _, _ = select.select([self.p.stdout], [], [], timeout)
+        if not r:
+            self.p.kill()
+            return "hang"
+        out = self.p.stdout.readline()
+        if out == "":
+            return "abort"
+        return out.rstrip("\n")
     def close(self):
         try:
             self.p.stdin.close(); self.p.wait(timeout=5)
